@@ -388,9 +388,10 @@ def _sc_is_error(comp, kind, fault):
     if comp == "s" and fault in SC_TLS_FAULTS and kind not in SC_TLS_SRVS:
         return False
     if fault == "rtr":
-        # the address is held by another instance of the router: "address in use" must be reported unless
-        # so_reuseport is configured explicitly (quic listeners take no socket options and always refuse)
-        return not (rp and kind != "quic")
+        # the address is held by another instance of the router: "address in use" must be reported unless the
+        # sockets carry SO_REUSEPORT: configured explicitly (quic listeners take no socket options and always
+        # refuse) or implied by udp.threads >= 2 (the kernel then reports no error: nothing to report)
+        return not ((rp and kind != "quic") or kind == "udp2")
     return True
 
 
